@@ -696,4 +696,89 @@ theorem Address_init_constructs (hm : a.mode = some m) (hk : mkAddress a = .ok h
 
 end result
 
+/-! ### the `bool` corner: `Address(Normal_11bits, txid=True, rxid=2)` is accepted (`isinstance(True, int)`), the object keeps
+    `self._txid = True` where the model object has `txid = some 1`: Python-equal, not identical -/
+
+def boolWitness : AddrArgs := { mode := some .n11, txid := .bool true, rxid := .int 2 }
+
+theorem bool_argument_kept_as_bool :
+    ∃ h env', mkAddress boolWitness = .ok h ∧
+      runFn (initMeths boolWitness) (initEnv boolWitness .n11) Src.Address_init = .ok (pnone, env') ∧
+      env' "self._txid" = some (pbool true) ∧ halfEnv h "self._txid" = some (pint 1) ∧
+      env' "self._txid" ≠ halfEnv h "self._txid" ∧ ¬ (∀ kv ∈ expectedAttrs h, env' kv.1 = some kv.2) := by
+  have hk : mkAddress boolWitness = .ok (mkHalf boolWitness .n11) := rfl
+  have hattr := (finalEnv_attrs boolWitness .n11 _ rfl hk).1 ("self._txid", pbool true) (by simp [rawIdAttrs, boolWitness])
+  refine ⟨_, _, hk, Address_init_run boolWitness .n11 _ rfl hk, hattr, rfl, ?_, ?_⟩
+  · rw [hattr]; decide
+  · intro hall
+    have := hall ("self._txid", pint 1) (by simp [expectedAttrs, idAttrs, mkHalf, boolWitness, optNat, PyVal.isNone, optPV, PyVal.intVal])
+    rw [hattr] at this
+    exact absurd this (by decide)
+
+/-! ### non-vacuity of the hypotheses -/
+
+example : ∃ a m, a.mode = some m ∧ validateAddr a = false := ⟨{ mode := some .n11 }, .n11, rfl, by decide⟩
+example : ∃ a m h, a.mode = some m ∧ mkAddress a = .ok h ∧ noBoolArgs a = true :=
+  ⟨{ mode := some .m29, ta := .int 1, sa := .int 2, ae := .int 3, physId := some 0x12345678 }, .m29, _, rfl, rfl, by decide⟩
+example : ∃ a m h, a.mode = some m ∧ mkAddress a = .ok h ∧ h.txOnly = true :=
+  ⟨{ mode := some .e11, txid := .int 0x123, ta := .int 1, txOnly := true }, .e11, _, rfl, rfl, rfl⟩
+
+/-! ## `AsymmetricAddress.__init__` -/
+
+/-- arguments of `AsymmetricAddress(tx_addr, rx_addr)`: two `Address` objects (opaque here: the constructor only stores them) -/
+def asymEnv : Env := fun k =>
+  match k with
+  | "tx_addr" => some (.meth "tx")
+  | "rx_addr" => some (.meth "rx")
+  | "self" => some (.meth "self")
+  | _ => constEnv k
+
+/-- `isinstance(x, Address)` holds of both arguments (the model's `mkAsym` takes two `Half`s); `Address.is_tx_only` / `is_rx_only`
+    return the `_tx_only` / `_rx_only` attribute (one-line getters, not in the dumped subset). -/
+def asymMeths (tx rx : Half) : Meths where
+  fn := fun name args _ =>
+    match name, args with
+    | "isinstance_Address", [_] => .ok (pbool true)
+    | "tx_addr.is_tx_only", [] => .ok (pbool tx.txOnly)
+    | "rx_addr.is_rx_only", [] => .ok (pbool rx.rxOnly)
+    | n, _ => .error (.unsupported ("call " ++ n))
+  proc := fun n _ _ => .error (.unsupported ("call " ++ n))
+
+theorem evalBuiltin_isinstance_Address (args : List PV) : evalBuiltin "isinstance_Address" args = none := by
+  unfold evalBuiltin; split <;> simp_all
+theorem evalBuiltin_is_tx_only (args : List PV) : evalBuiltin "tx_addr.is_tx_only" args = none := by
+  unfold evalBuiltin; split <;> simp_all
+theorem evalBuiltin_is_rx_only (args : List PV) : evalBuiltin "rx_addr.is_rx_only" args = none := by
+  unfold evalBuiltin; split <;> simp_all
+
+/-- **`AsymmetricAddress.__init__` = `mkAsym`**: `ValueError` exactly when the model rejects the pair; otherwise the two halves are
+    stored. -/
+theorem AsymmetricAddress_init_agrees (tx rx : Half) :
+    runFn (asymMeths tx rx) asymEnv Src.AsymmetricAddress_init =
+      match mkAsym tx rx with
+      | .ok _ => .ok (pnone, (asymEnv.set "self.tx_addr" (.meth "tx")).set "self.rx_addr" (.meth "rx"))
+      | .error e => .error (.exc e) := by
+  have g1 : asymEnv "tx_addr" = some (.meth "tx") := rfl
+  have g2 : asymEnv "rx_addr" = some (.meth "rx") := rfl
+  have m1 : ∀ v env, (asymMeths tx rx).fn "isinstance_Address" [v] env = .ok (pbool true) := fun _ _ => rfl
+  have m2 : ∀ env, (asymMeths tx rx).fn "tx_addr.is_tx_only" [] env = .ok (pbool tx.txOnly) := fun _ => rfl
+  have m3 : ∀ env, (asymMeths tx rx).fn "rx_addr.is_rx_only" [] env = .ok (pbool rx.rxOnly) := fun _ => rfl
+  cases ht : tx.txOnly <;> cases hr : rx.rxOnly <;>
+  simp [runFn, Src.AsymmetricAddress_init, execBlock, execStmt, eval, evalArgs, g1, g2, m1, m2, m3, ht, hr, mkAsym,
+    evalBuiltin_isinstance_Address, evalBuiltin_is_tx_only, evalBuiltin_is_rx_only, set_get]
+
+theorem AsymmetricAddress_init_raises_iff (tx rx : Half) :
+    runFn (asymMeths tx rx) asymEnv Src.AsymmetricAddress_init = .error (.exc .ValueError) ↔ mkAsym tx rx = .error .ValueError := by
+  rw [AsymmetricAddress_init_agrees]
+  unfold mkAsym
+  cases tx.txOnly <;> cases rx.rxOnly <;> simp
+
+#print axioms Address_init_rejects
+#print axioms Address_init_run
+#print axioms Address_init_constructs_raw
+#print axioms Address_init_constructs
+#print axioms bool_argument_kept_as_bool
+#print axioms AsymmetricAddress_init_agrees
+#print axioms AsymmetricAddress_init_raises_iff
+
 end Isotp.PyAgree
